@@ -48,6 +48,10 @@ type Decl struct {
 	Ptr    bool     `json:"ptr,omitempty"`    // pointer receiver
 	Group  []*Decl  `json:"group,omitempty"`  // members of a grouped type declaration
 	Fields []string `json:"fields,omitempty"` // extra struct field lines
+	// Broken (scalar): declared on an identifier that does not exist ("type Users MissingUsers"): the package
+	// has a type error - which gengo tolerates (it prints a warning), so that code can refer to what will
+	// only exist once it has been generated - and the type is a package-level defined type all the same
+	Broken bool `json:"broken,omitempty"`
 	// LineBefore: "file:line" of a //line directive written (with an empty line after it) in front of the declaration
 	LineBefore string `json:"line_before,omitempty"`
 }
@@ -209,6 +213,9 @@ func typeBody(d *Decl) string {
 		}
 		return s + "}"
 	case "scalar":
+		if d.Broken {
+			return "Missing" + d.Name
+		}
 		return "int"
 	case "mapt":
 		return "map[string]string"
